@@ -6,7 +6,7 @@ Driver for C04 case lines (harness/c04/c04.go):
 ```
 C04 <kind> <nvh> { vh <ndom> <dom>… <nrules> { r <prefix> <path> <rx> <nvars> {<name> <value> <rx> <model>}… <nhdrs> {<name> <value> <isregex> <rxid> <rxok>}…
                                                      <ndsl> {<empty 0|1> <id> <compiles 0|1>}… }… }…
-           req <nvars> {<name> <value|!>}… <nhdrs> {<name> <value>}…  rx <n> {<id> <input> <0|1>}…  dx <n> {<id> <t|f|e>}…
+           req <nvars> {<name> <value|!>}… <nhdrs> {<name> <value>}…  rx <n> {<id> <input> <0|1>}…  dx <n> {<id> <t|f|e|n>}…   (e = evaluation error, n = not a boolean)
     => <errorName> | panic | ok <vhostIndex|-1> <vh.rule|none> <vh.rule,…|->
 ```
 strings are percent-escaped (`%` alone = empty), `!` = unset / no regex, `<rx>` = `<id>:<compiles 0|1>`.
@@ -137,7 +137,7 @@ def caseP : P Case := do
     let i ← nat
     let t ← next
     if t == "t" then pure (i, some true) else if t == "f" then pure (i, some false)
-    else if t == "e" then pure (i, (none : Option Bool)) else failure)
+    else if t == "e" || t == "n" then pure (i, (none : Option Bool)) else failure)
   pure ⟨cfg, vars, hdrs, tab, dtab⟩
 
 def lookupStr {β : Type} (l : List (Str × β)) (k : Str) : Option β :=
